@@ -2,6 +2,7 @@ SPECIFICATION Spec
 CONSTANTS
   MeshIds = {"tri2d", "quad2d", "tet", "tetmix", "mixed", "mix3", "thin10", "bad5", "bigid"}
   GeomNames = {"A", "B"}
+  Prefix <- NoPrefix
   MaxDepth = 4
   MixedTypesSupported = TRUE
   DimensionPerGeometry = TRUE
